@@ -149,8 +149,56 @@ func c03SendCases() []sigCase {
 	}
 }
 
+// the steps that run after setDescription and can fail, one scenario each
+// (witnesses of c03_remote_classes_refuted / c03_local_classes_refuted), with controls
+func c03PostCases() []sigCase {
+	noAgent := func(pc int) sigOp { return sigOp{K: sigDeclare, PC: pc, Ref: -1, Mut: traitNoAgent} }
+	sticky := func(pc int) sigOp { return sigOp{K: sigDeclare, PC: pc, Ref: -1, Mut: traitStickyTrack} }
+	var out []sigCase
+	for cfg := 0; cfg < 3; cfg++ {
+		out = append(out,
+			// Codec, first negotiation: the peer's offer plus an audio section with unreadable formats;
+			// then the valid offer (now an invalid edge), an answer attempt
+			sigCase{Cfg: [2]int{cfg, cfg}, Ops: []sigOp{{K: sigCreateOffer, PC: 1}, {K: sigSetRemote, PC: 0, Ty: tyOffer, Ref: 0, Mut: mutBadCodec},
+				{K: sigSetRemote, PC: 0, Ty: tyOffer, Ref: 0}, {K: sigCreateAnswer, PC: 0}, {K: sigSetLocal, PC: 0, Ty: tyAnswer, Ref: 3}}},
+			// Codec, renegotiation, as offer and as answer
+			sigCase{Cfg: [2]int{cfg, cfg}, Ops: append(c01Exchange(nil, 1, false), sigOp{K: sigCreateOffer, PC: 1},
+				sigOp{K: sigSetRemote, PC: 0, Ty: tyOffer, Ref: 6, Mut: mutBadCodec}, sigOp{K: sigSetRemote, PC: 0, Ty: tyOffer, Ref: 6})},
+			sigCase{Cfg: [2]int{cfg, cfg}, Ops: []sigOp{{K: sigCreateOffer, PC: 0}, {K: sigSetLocal, PC: 0, Ty: tyOffer, Ref: 0},
+				{K: sigSetRemote, PC: 1, Ty: tyOffer, Ref: 0}, {K: sigCreateAnswer, PC: 1},
+				{K: sigSetRemote, PC: 0, Ty: tyAnswer, Ref: 3, Mut: mutBadCodec}, {K: sigSetRemote, PC: 0, Ty: tyAnswer, Ref: 3}}},
+			// Gather: no agent, SetLocalDescription({offer, ""}) before any CreateOffer (JSEP 5.4
+			// substitutes the empty last offer); then CreateOffer (refused), the same call again
+			sigCase{Cfg: [2]int{cfg, 0}, Ops: []sigOp{noAgent(0), {K: sigSetLocal, PC: 0, Ty: tyOffer, Ref: -1},
+				{K: sigCreateOffer, PC: 0}, {K: sigSetLocal, PC: 0, Ty: tyOffer, Ref: -1}}},
+			// Gather on the answering side: remote offer applied, CreateAnswer refused,
+			// SetLocalDescription({answer, ""}) completes the exchange and fails
+			sigCase{Cfg: [2]int{cfg, cfg}, Ops: []sigOp{noAgent(0), {K: sigCreateOffer, PC: 1}, {K: sigSetRemote, PC: 0, Ty: tyOffer, Ref: 1},
+				{K: sigCreateAnswer, PC: 0}, {K: sigSetLocal, PC: 0, Ty: tyAnswer, Ref: -1}, {K: sigCreateOffer, PC: 0}}},
+			// AddRemoteCandidate: no agent, the peer's offer with one valid candidate line;
+			// control: the same on an ordinary connection
+			sigCase{Cfg: [2]int{cfg, cfg}, Ops: []sigOp{noAgent(0), {K: sigCreateOffer, PC: 1}, {K: sigSetRemote, PC: 0, Ty: tyOffer, Ref: 1, Mut: mutGoodCandidate},
+				{K: sigSetRemote, PC: 0, Ty: tyOffer, Ref: 1}}},
+			sigCase{Cfg: [2]int{cfg, cfg}, Ops: []sigOp{{K: sigCreateOffer, PC: 1}, {K: sigSetRemote, PC: 0, Ty: tyOffer, Ref: 0, Mut: mutGoodCandidate},
+				{K: sigCreateAnswer, PC: 0}, {K: sigSetLocal, PC: 0, Ty: tyAnswer, Ref: 2}}},
+		)
+	}
+	// Stop: pc0 holds a track that refuses Unbind and has sent; the peer's next offer,
+	// every section inactive, makes SetRemoteDescription stop the transceiver.
+	// control: the unmutated offer; the inactive offer on a connection with an ordinary track
+	for _, mut := range []int{mutInactive, mutNone} {
+		ops := c01Exchange([]sigOp{sticky(0)}, 0, false) // ops 1..6, pc0 offers
+		out = append(out, sigCase{Cfg: [2]int{0, 2}, Ops: append(ops, sigOp{K: sigCreateOffer, PC: 1},
+			sigOp{K: sigSetRemote, PC: 0, Ty: tyOffer, Ref: 7, Mut: mut}, sigOp{K: sigSetRemote, PC: 0, Ty: tyOffer, Ref: 7})})
+	}
+	out = append(out, sigCase{Cfg: [2]int{3, 2}, Ops: append(c01Exchange(nil, 0, false), sigOp{K: sigCreateOffer, PC: 1},
+		sigOp{K: sigSetRemote, PC: 0, Ty: tyOffer, Ref: 6, Mut: mutInactive}, sigOp{K: sigSetRemote, PC: 0, Ty: tyOffer, Ref: 6})})
+	return out
+}
+
 func init() {
-	allMuts := []int{mutGarbage, mutNoMid, mutNoUfrag, mutNoPwd, mutNoFingerprint, mutBadFingerprint, mutBadCandidate}
+	allMuts := []int{mutGarbage, mutNoMid, mutNoUfrag, mutNoPwd, mutNoFingerprint, mutBadFingerprint, mutBadCandidate,
+		mutBadCodec, mutGoodCandidate, mutInactive}
 	Register(Spec[sigCase]{
 		ID: "C03", Suite: "classes", CoqImports: []string{"Check.C03"},
 		CoqType: "list Check.C01.hop", CoqRun: "Check.C03.run",
@@ -165,6 +213,12 @@ func init() {
 		Run:        c03Run, Coq: sigCoq,
 	})
 	Register(Spec[sigCase]{
+		ID: "C03", Suite: "post", CoqImports: []string{"Check.C03"},
+		CoqType: "list Check.C01.hop", CoqRun: "Check.C03.run",
+		Exhaustive: c03PostCases,
+		Run:        c03Run, Coq: sigCoq,
+	})
+	Register(Spec[sigCase]{
 		ID: "C03", Suite: "hist", CoqImports: []string{"Check.C03"},
 		CoqType: "list Check.C01.hop", CoqRun: "Check.C03.run",
 		Quick: 500, Thorough: 8000, Parallel: 8,
@@ -172,7 +226,7 @@ func init() {
 			// witnesses of c03_remote_full_refuted / c03_remote_classes_refuted: a fresh
 			// connection given the peer's offer with one thing removed
 			var out []sigCase
-			for _, m := range allMuts[1:] {
+			for _, m := range allMuts[1:7] {
 				out = append(out, sigCase{Ops: []sigOp{{K: sigCreateOffer, PC: 1}, {K: sigSetRemote, PC: 0, Ty: tyOffer, Ref: 0, Mut: m},
 					{K: sigSetRemote, PC: 0, Ty: tyOffer, Ref: 0}}})
 			}
